@@ -1,43 +1,50 @@
 #!/usr/bin/env python3
-"""Copies the confirmed seeded changes (and what the checks said about them) from /tmp/seed into /verif/seeded/<id>-<k>/."""
+"""Copies the confirmed seeded changes (and what the checks said about them) from /tmp/seed* into /verif/seeded/."""
 import glob, json, os, shutil, subprocess
 
 out_root = "/verif/seeded"
 rows = []
 head = subprocess.run(["git", "-C", "/repo", "rev-parse", "--short", "HEAD"], capture_output=True, text=True).stdout.strip()
-for f in sorted(glob.glob("/tmp/seed/results/final/C*.json")):
-    pid = os.path.basename(f)[:-5]
-    for e in json.load(open(f)):
-        if not e.get("confirmed"):
-            rows.append((pid, e["k"], "NOT CONFIRMED", "", e.get("meta", {}).get("summary", "")))
-            continue
-        src = f"/tmp/seed/{pid}/_seeded/{e['k']}"
-        dst = f"{out_root}/{pid}-{e['k']}"
-        os.makedirs(dst, exist_ok=True)
-        shutil.copy(f"{src}/patch.diff", f"{dst}/patch.diff")
-        demo = "demo.py" if os.path.exists(f"{src}/demo.py") else "test_demo.py"
-        shutil.copy(f"{src}/{demo}", f"{dst}/{demo}")
-        chk = e["checks"].get(pid, {})
-        meta = {
-            "property": pid,
-            "summary": e["meta"].get("summary", ""),
-            "needs": e["meta"].get("needs", ""),
-            "files": e["meta"].get("files", []),
-            "origin": "written by an independent sub-agent that saw only the property text and its own scratch worktree",
-            "relative_to_repo_commit": head,
-            "what_was_run": [
-                f"{demo} on the clean worktree: exit {e['demo_clean_rc']}",
-                f"git apply patch.diff; PYTHONPATH=<worktree>/src pytest tests/earthkit_workflows: {e['suite_patched']}",
-                f"{demo} with the patch: exit {e['demo_patched_rc']}",
-                f"VF_REPO=<patched worktree> ./vfc check {pid} --tier quick: exit {chk.get('exit')} keys {chk.get('keys')}",
-            ],
-            "detected_by_quick_check": chk.get("exit") == 1,
-            "violation_keys": chk.get("keys", []),
-        }
-        json.dump(meta, open(f"{dst}/meta.json", "w"), indent=1)
-        rows.append((pid, e["k"], "detected" if chk.get("exit") == 1 else f"MISSED (exit {chk.get('exit')})", ", ".join(chk.get("keys", [])[:3]), meta["summary"]))
+SOURCES = [("/tmp/seed/results/final", "/tmp/seed", ""), ("/tmp/seed/results/round2", "/tmp/seed2", "r2-")]
+for resdir, seedroot, prefix in SOURCES:
+    for f in sorted(glob.glob(f"{resdir}/C*.json")):
+        pid = os.path.basename(f)[:-5]
+        for e in json.load(open(f)):
+            name = f"{prefix}{pid}-{e['k']}"
+            if not e.get("confirmed"):
+                rows.append((name, "NOT CONFIRMED (not kept)", "", e.get("meta", {}).get("summary", "")))
+                continue
+            src = f"{seedroot}/{pid}/_seeded/{e['k']}"
+            dst = f"{out_root}/{name}"
+            os.makedirs(dst, exist_ok=True)
+            shutil.copy(f"{src}/patch.diff", f"{dst}/patch.diff")
+            demo = "demo.py" if os.path.exists(f"{src}/demo.py") else "test_demo.py"
+            shutil.copy(f"{src}/{demo}", f"{dst}/{demo}")
+            detected = [cp for cp, c in e["checks"].items() if c.get("exit") == 1]
+            keys = sorted({k for c in e["checks"].values() for k in c.get("keys", [])})
+            meta = {
+                "property": pid,
+                "summary": e["meta"].get("summary", ""),
+                "needs": e["meta"].get("needs", ""),
+                "files": e["meta"].get("files", []),
+                "origin": "written by an independent sub-agent that saw only the property text and its own scratch worktree",
+                "relative_to_repo_commit": head,
+                "what_was_run": [
+                    f"{demo} on the clean worktree: exit {e['demo_clean_rc']}",
+                    f"git apply patch.diff; PYTHONPATH=<worktree>/src pytest tests/earthkit_workflows: {e['suite_patched']}",
+                    f"{demo} with the patch: exit {e['demo_patched_rc']}",
+                ] + [f"VF_REPO=<patched worktree> ./vfc check {cp} --tier quick: exit {c.get('exit')} keys {c.get('keys')}" for cp, c in e["checks"].items()],
+                "detected_by_quick_check_of": detected,
+                "violation_keys": keys,
+            }
+            json.dump(meta, open(f"{dst}/meta.json", "w"), indent=1)
+            outcome = ("detected by " + ",".join(detected)) if detected else "MISSED (" + ",".join(f"{cp}: exit {c.get('exit')}" for cp, c in e["checks"].items()) + ")"
+            rows.append((name, outcome, ", ".join(keys[:3]), meta["summary"]))
 with open(f"{out_root}/SUMMARY.md", "w") as fh:
     fh.write("| seeded change | outcome of the quick check | violation keys | what the change does |\n|---|---|---|---|\n")
-    for pid, k, outcome, keys, summ in rows:
-        fh.write(f"| {pid}-{k} | {outcome} | {keys} | {summ[:160].replace('|', '/')} |\n")
-print(f"{len(rows)} seeded changes, detected {sum(1 for r in rows if r[2] == 'detected')}")
+    for name, outcome, keys, summ in rows:
+        fh.write(f"| {name} | {outcome} | {keys} | {summ[:170].replace('|', '/')} |\n")
+    notes = "/verif/seeded/NOTES.md"
+    if os.path.exists(notes):
+        fh.write("\n" + open(notes).read())
+print(f"{len(rows)} seeded changes, detected {sum(1 for r in rows if r[1].startswith('detected'))}")
